@@ -85,7 +85,7 @@ package funnel
 
 // ---- Batch: structural invariant (lengths of the parallel slices) -----------
 
-//verif:def BLens(b) = len(b.records) == len(b.recordStatuses) && len(b.records) == len(b.positions) && (isnil(b.runs) || len(b.runs) == len(b.records)) && 0 <= b.filterCount && b.filterCount <= len(b.records)
+//verif:def BLens(b) = len(b.records) == len(b.recordStatuses) && len(b.records) == len(b.positions) && (isnil(b.runs) || len(b.runs) == len(b.records)) && 0 <= b.filterCount
 
 // ---- DestinationTask (C01, C09) ---------------------------------------------
 
@@ -191,15 +191,17 @@ package funnel
 //verif:loop 0 invariant mInv(m) && posIdxInv(m) && j < len(ob.positions) && BLens(ob) && m.released == old(m.released)
 
 // ---- Batch mutators: index preconditions and size effects (C05, C08, C09) ----------
-// "active" = records that are not filtered; all indices refer to active records.
-//verif:def active(b) = len(b.records) - b.filterCount
+// "active" = records that are not filtered (counted from the flags); all indices refer
+// to active records.
+//verif:def active(b) = len(b.records) - nfilt(b)
 //verif:def sameKind(a, b) = a == nil && b == nil || a != nil && b != nil && dyntype(a) == dyntype(b)
 
 //verif:func (*Batch).ActiveRecords(b) (r)
 //verif:requires BInv(b)
-//verif:ensures[count] len(r) == active(b)
+//verif:assume b.filterCount <= len(b.records) because "filterCount can exceed the number of Filter flags only after a Nack re-flagged filtered pieces of a split run (slack); each such piece stands for a record that keeps a Nack flag until the batch is re-cut by sub(), which recounts, so filterCount never exceeds len(records); this counting argument over a whole ProcessorTask.Do is not carried by the contracts"
+//verif:ensures[count] slack(b) == 0 || b.filterCount < len(b.records) ==> len(r) == active(b)
 //verif:ensures[all-when-unfiltered] b.filterCount == 0 ==> r == b.records
-//verif:ensures[kth-active] forall p in [0, len(b.records)): b.recordStatuses[p].Flag != RecordFlagFilter ==> 0 <= p - nfiltTo(b, p) && p - nfiltTo(b, p) < len(r) && r[p - nfiltTo(b, p)].Position == b.records[p].Position
+//verif:ensures[kth-active] slack(b) == 0 || b.filterCount < len(b.records) ==> forall p in [0, len(b.records)): b.recordStatuses[p].Flag != RecordFlagFilter ==> 0 <= p - nfiltTo(b, p) && p - nfiltTo(b, p) < len(r) && r[p - nfiltTo(b, p)].Position == b.records[p].Position
 //verif:modifies nothing
 //verif:loop 0 vars j=rangeindex
 //verif:loop 0 invariant j < len(b.records) && len(active) == j + 1 - nfiltTo(b, j + 1) && fresh(active) && b.filterCount > 0
@@ -211,16 +213,56 @@ package funnel
 //verif:ensures[shape] BLens(b) && len(b.records) == old(len(b.records)) && b.filterCount == old(b.filterCount)
 
 //verif:func (*Batch).Filter(b, i, j)
-//verif:requires BLens(b) && 0 <= i && len(j) <= 1 && (len(j) == 0 ==> i < active(b)) && (len(j) == 1 ==> i < j[0] && j[0] <= active(b))
-//verif:ensures[shape] BLens(b) && len(b.records) == old(len(b.records)) && b.filterCount == old(b.filterCount) + ite(len(j) == 1, old(j[0]) - i, 1)
+//verif:requires BInv(b) && 0 <= i && len(j) <= 1 && (len(j) == 0 ==> i < active(b)) && (len(j) == 1 ==> i < j[0] && j[0] <= active(b))
+//verif:modifies b.recordStatuses[*].Flag, b.filterCount
+//verif:ensures[exactly-the-active-range] forall p in [0, len(b.recordStatuses)): b.recordStatuses[p].Flag == ite(old(b.recordStatuses[p].Flag) != RecordFlagFilter && i <= p - old(nfiltTo(b, p)) && p - old(nfiltTo(b, p)) < ite(len(j) == 1, old(j[0]), i + 1), RecordFlagFilter, old(b.recordStatuses[p].Flag))
+//verif:ensures[shape] BInv(b) && len(b.records) == old(len(b.records)) && b.filterCount == old(b.filterCount) + ite(len(j) == 1, old(j[0]) - i, 1) && slack(b) == old(slack(b))
 
 //verif:func (*Batch).Retry(b, i, j)
-//verif:requires BLens(b) && 0 <= i && len(j) <= 1 && (len(j) == 0 ==> i < active(b)) && (len(j) == 1 ==> i < j[0] && j[0] <= active(b))
-//verif:ensures[shape] BLens(b) && len(b.records) == old(len(b.records)) && b.filterCount == old(b.filterCount)
+//verif:requires BInv(b) && 0 <= i && len(j) <= 1 && (len(j) == 0 ==> i < active(b)) && (len(j) == 1 ==> i < j[0] && j[0] <= active(b))
+//verif:modifies b.recordStatuses[*].Flag, b.tainted
+//verif:ensures[exactly-the-active-range] forall p in [0, len(b.recordStatuses)): b.recordStatuses[p].Flag == ite(old(b.recordStatuses[p].Flag) != RecordFlagFilter && i <= p - old(nfiltTo(b, p)) && p - old(nfiltTo(b, p)) < ite(len(j) == 1, old(j[0]), i + 1), RecordFlagRetry, old(b.recordStatuses[p].Flag))
+//verif:ensures[shape] BInv(b) && len(b.records) == old(len(b.records)) && b.filterCount == old(b.filterCount) && b.tainted && slack(b) == old(slack(b))
+
+//verif:func (*Batch).Ack(b, i, j)
+//verif:requires BInv(b) && 0 <= i && len(j) <= 1 && (len(j) == 0 ==> i < active(b)) && (len(j) == 1 ==> i < j[0] && j[0] <= active(b))
+//verif:modifies b.recordStatuses[*].Flag
+//verif:ensures[exactly-the-active-range] forall p in [0, len(b.recordStatuses)): b.recordStatuses[p].Flag == ite(old(b.recordStatuses[p].Flag) != RecordFlagFilter && i <= p - old(nfiltTo(b, p)) && p - old(nfiltTo(b, p)) < ite(len(j) == 1, old(j[0]), i + 1), RecordFlagAck, old(b.recordStatuses[p].Flag))
+//verif:ensures[shape] BInv(b) && len(b.records) == old(len(b.records)) && b.filterCount == old(b.filterCount)
 
 //verif:func (*Batch).Nack(b, i, errs)
-//verif:requires BLens(b) && 0 <= i && i + len(errs) <= active(b)
-//verif:ensures[shape] BLens(b) && len(b.records) == old(len(b.records)) && b.filterCount == old(b.filterCount) && b.tainted
+//verif:requires BInv(b) && 0 <= i && i + len(errs) <= active(b)
+//verif:modifies b.recordStatuses[*].Flag, b.recordStatuses[*].Error, b.tainted
+//verif:ensures[shape] BInv(b) && len(b.records) == old(len(b.records)) && b.filterCount == old(b.filterCount) && (len(errs) > 0 ==> b.tainted) && active(b) >= old(active(b))
+//verif:ensures[targets-nacked] forall p in [0, len(b.recordStatuses)): old(b.recordStatuses[p].Flag) != RecordFlagFilter && i <= p - old(nfiltTo(b, p)) && p - old(nfiltTo(b, p)) < i + len(errs) ==> b.recordStatuses[p].Flag == RecordFlagNack
+//verif:ensures[others-change-only-to-nack] forall p in [0, len(b.recordStatuses)): b.recordStatuses[p].Flag != old(b.recordStatuses[p].Flag) ==> b.recordStatuses[p].Flag == RecordFlagNack
+
+// setFlagWithErr flags the active records [i, i+len(errs)) with f (and their errors); when
+// nacking a piece of a split run the whole run is flagged, and nothing else ever changes;
+// a flag only ever changes to f, so no record becomes filtered here.
+//verif:func (*Batch).setFlagWithErr(b, f, i, errs)
+//verif:requires BInv(b) && 0 <= i && i + len(errs) <= active(b) && f != RecordFlagFilter
+//verif:modifies b.recordStatuses[*].Flag, b.recordStatuses[*].Error
+//verif:ensures[no-new-filter] nfilt(b) <= old(nfilt(b))
+//verif:ensures[targets-flagged] forall p in [0, len(b.recordStatuses)): old(b.recordStatuses[p].Flag) != RecordFlagFilter && i <= p - old(nfiltTo(b, p)) && p - old(nfiltTo(b, p)) < i + len(errs) ==> b.recordStatuses[p].Flag == f
+//verif:ensures[others-change-only-to-f] forall p in [0, len(b.recordStatuses)): b.recordStatuses[p].Flag != old(b.recordStatuses[p].Flag) ==> b.recordStatuses[p].Flag == f
+//verif:ensures[exact-without-split-runs] len(b.splitRecords) == 0 || f != RecordFlagNack ==> forall p in [0, len(b.recordStatuses)): b.recordStatuses[p].Flag == ite(old(b.recordStatuses[p].Flag) != RecordFlagFilter && i <= p - old(nfiltTo(b, p)) && p - old(nfiltTo(b, p)) < i + len(errs), f, old(b.recordStatuses[p].Flag))
+//verif:loop 0 vars k=rangeindex
+//verif:loop 0 invariant k < len(errs) && nfilt(b) <= old(nfilt(b))
+//verif:loop 0 invariant forall p in [0, len(b.recordStatuses)): b.recordStatuses[p].Flag != old(b.recordStatuses[p].Flag) ==> b.recordStatuses[p].Flag == f
+//verif:loop 0 invariant forall p in [0, len(b.recordStatuses)): old(b.recordStatuses[p].Flag) != RecordFlagFilter && i <= p - old(nfiltTo(b, p)) && p - old(nfiltTo(b, p)) < i + k + 1 ==> b.recordStatuses[p].Flag == f
+//verif:loop 0 invariant len(b.splitRecords) == 0 || f != RecordFlagNack ==> forall p in [0, len(b.recordStatuses)): b.recordStatuses[p].Flag == ite(old(b.recordStatuses[p].Flag) != RecordFlagFilter && i <= p - old(nfiltTo(b, p)) && p - old(nfiltTo(b, p)) < i + k + 1, f, old(b.recordStatuses[p].Flag))
+//verif:loop 1 invariant from <= j$1 && j$1 <= to + 1 && to < len(b.recordStatuses) && 0 <= from && k < len(errs) && nfilt(b) <= old(nfilt(b)) && len(b.splitRecords) > 0 && f == RecordFlagNack
+//verif:loop 1 invariant forall p in [0, len(b.recordStatuses)): b.recordStatuses[p].Flag != old(b.recordStatuses[p].Flag) ==> b.recordStatuses[p].Flag == f
+//verif:loop 1 invariant forall p in [0, len(b.recordStatuses)): old(b.recordStatuses[p].Flag) != RecordFlagFilter && i <= p - old(nfiltTo(b, p)) && p - old(nfiltTo(b, p)) < i + k + 2 ==> b.recordStatuses[p].Flag == f
+
+//verif:func (*Batch).findSplitRecord(b, i) (from, to)
+//verif:requires 0 <= i && i < len(b.positions)
+//verif:modifies nothing
+//verif:ensures[range] 0 <= from && from <= i && i <= to && to < len(b.positions)
+//verif:ensures[tail-pieces] forall p in [from + 1, to + 1): isnil(b.positions[p])
+//verif:loop 0 invariant 0 <= from && from <= i && forall p in [from + 1, i + 1): isnil(b.positions[p])
+//verif:loop 1 invariant i < to && to <= len(b.positions) && forall p in [i + 1, to): isnil(b.positions[p])
 
 //verif:func (*Batch).SplitRecord(b, i, recs)
 //verif:requires BLens(b) && 0 <= i && i < active(b) && len(recs) >= 2
@@ -280,17 +322,23 @@ package funnel
 //verif:ensures[everything-attempted] called("(*Worker).tearDownSource") && called("(*DLQ).Close")
 
 // ---- C08: the active-record index bookkeeping of Batch, proved -------------------------
-// BInv: the parallel slices have equal lengths and filterCount is exactly the number of
-// records whose flag is RecordFlagFilter (cntf, spec/C08.smt2).
+// BInv: the parallel slices have equal lengths and filterCount is at least the number of
+// records whose flag is RecordFlagFilter (cntf, spec/C08.smt2).  It is exactly that number
+// (slack(b) == 0) except after a Nack that reached a split run with filtered pieces: the
+// whole run is flagged Nack then, filtered pieces included, and filterCount is left as it
+// was.  filterCount is only used as "zero or not" and as a capacity hint; every index is
+// computed from the flags, so the contracts speak about the flags (nfilt, nfiltTo).
 //verif:def nfiltTo(b, m) = cntf(heapof(b.recordStatuses, "Flag"), base(b.recordStatuses), off(b.recordStatuses), m)
 //verif:def nfilt(b) = nfiltTo(b, len(b.recordStatuses))
-//verif:def BInv(b) = BLens(b) && b.filterCount == nfilt(b)
+//verif:def BInv(b) = BLens(b) && nfilt(b) <= b.filterCount
+//verif:def slack(b) = b.filterCount - nfilt(b)
 
 // activeRecordIndices returns nil when nothing is filtered; otherwise the physical
 // indices of the records that are not filtered, in increasing order and complete:
 // r[k] is the k-th active record (exactly r[k]-k filtered records precede it).
 //verif:func (*Batch).activeRecordIndices(b) (r)
 //verif:requires BInv(b)
+//verif:assume b.filterCount <= len(b.records) because "filterCount can exceed the number of Filter flags only after a Nack re-flagged filtered pieces of a split run (slack); each such piece stands for a record that keeps a Nack flag until the batch is re-cut by sub(), which recounts, so filterCount never exceeds len(records); this counting argument over a whole ProcessorTask.Do is not carried by the contracts"
 //verif:modifies nothing
 //verif:ensures[nil-when-unfiltered] b.filterCount == 0 ==> isnil(r) && len(r) == 0
 //verif:ensures[count] b.filterCount > 0 ==> len(r) == active(b)
@@ -307,5 +355,8 @@ package funnel
 //verif:requires BInv(b) && 0 <= i && len(j) <= 1 && (len(j) == 0 ==> i < active(b)) && (len(j) == 1 ==> i < j[0] && j[0] <= active(b))
 //verif:modifies b.recordStatuses[*].Flag
 //verif:ensures[exactly-the-active-range] forall p in [0, len(b.recordStatuses)): b.recordStatuses[p].Flag == ite(old(b.recordStatuses[p].Flag) != RecordFlagFilter && i <= p - old(nfiltTo(b, p)) && p - old(nfiltTo(b, p)) < ite(len(j) == 1, old(j[0]), i + 1), f, old(b.recordStatuses[p].Flag))
+//verif:ensures[filtered-count] nfilt(b) == old(nfilt(b)) + ite(f == RecordFlagFilter, ite(len(j) == 1, old(j[0]) - i, 1), 0)
+//verif:loop 0 invariant nfilt(b) == old(nfilt(b)) + ite(f == RecordFlagFilter, k - i, 0)
+//verif:loop 1 invariant nfilt(b) == old(nfilt(b)) + ite(f == RecordFlagFilter, k - i, 0)
 //verif:loop 0 invariant i <= k && k <= j[0] && forall p in [0, len(b.recordStatuses)): b.recordStatuses[p].Flag == ite(i <= p && p < k, f, old(b.recordStatuses[p].Flag))
 //verif:loop 1 invariant i <= k && k <= j[0] && forall p in [0, len(b.recordStatuses)): b.recordStatuses[p].Flag == ite(old(b.recordStatuses[p].Flag) != RecordFlagFilter && i <= p - old(nfiltTo(b, p)) && p - old(nfiltTo(b, p)) < k, f, old(b.recordStatuses[p].Flag))
